@@ -409,3 +409,257 @@ theorem listToTree_spec (c : Char) (dupOk : Bool) (items : List Item) (hwf : ∀
       exact ⟨u1, u2, u3, u4, hdup.2⟩
 
 end Paths
+
+namespace Paths
+open Str Rel
+
+/-! ## any tree: the children paths of a node appear, in order, in the pre-order path list -/
+
+theorem heads_sublist_pathsL (cs : List Tree) : (cs.map fun c => [c.name]).Sublist (pathsL cs) := by
+  induction cs with
+  | nil => simp
+  | cons c cs ih =>
+    rw [pathsL_cons, paths_eq, List.map_cons]
+    exact List.Sublist.cons_cons _ ((ih.trans (List.sublist_append_right _ _)))
+
+theorem paths_sublist_pathsL (cs : List Tree) (k : Nat) (c : Tree) (h : cs[k]? = some c) :
+    (paths c).Sublist (pathsL cs) := by
+  induction cs generalizing k with
+  | nil => simp at h
+  | cons x xs ih =>
+    rw [pathsL_cons]
+    cases k with
+    | zero => simp at h; subst h; exact List.sublist_append_left _ _
+    | succ k => exact (ih k (by simpa using h)).trans (List.sublist_append_right _ _)
+
+theorem kidPaths_sublist_paths (b : Addr) : ∀ (t n : Tree), nodeAt b t = some n →
+    (kidPaths (namesAlong b t) n).Sublist (paths t) := by
+  induction b with
+  | nil =>
+    intro t n hn
+    simp at hn; subst hn
+    rw [paths_eq]
+    apply List.Sublist.cons
+    have := (heads_sublist_pathsL t.children).map (fun q => t.name :: q)
+    simpa [kidPaths, List.map_map, Function.comp_def] using this
+  | cons k ks ih =>
+    intro t n hn
+    rw [nodeAt_cons] at hn
+    cases hk : t.children[k]? with
+    | none => rw [hk] at hn; cases hn
+    | some c =>
+      rw [hk] at hn
+      simp only [Option.bind] at hn
+      rw [namesAlong_cons _ _ _ _ hk, paths_eq]
+      apply List.Sublist.cons
+      have h1 := (ih c n hn).map (fun q => t.name :: q)
+      have h2 := (paths_sublist_pathsL t.children k c hk).map (fun q => t.name :: q)
+      have h3 : kidPaths (t.name :: namesAlong ks c) n = (kidPaths (namesAlong ks c) n).map (fun q => t.name :: q) := by
+        simp [kidPaths, List.map_map, Function.comp_def]
+      rw [h3]
+      exact h1.trans h2
+
+/-- The fold of `add_path_to_tree` over well-formed path strings, starting from ANY tree with
+    pairwise different sibling names (the `add_*_by_path` functions; the constructors start it from
+    a one-node tree): with `K := closure (paths t) branches`,
+    the node paths of the result are exactly `K` (old paths, then every new prefix once, in order of
+    first appearance), no path twice, and the children paths of every node are a sublist of `K`.
+    With duplicates disallowed (`s` = the tree's separator, occurring in no name) a fold that does
+    not raise gives the same result, and keeps all names distinct if they were. -/
+theorem addMany_spec (s c : Char) (dupOk : Bool) (items : List Item) (t : Tree) (fresh : Nat) (t' : Tree)
+    (fr' : Nat) (hwf : ∀ it ∈ items, it.Wf c) (hs : SibUnique t)
+    (hno : dupOk = false → SepFree s t ∧ ∀ it ∈ items, ∀ x ∈ it.branch, s ∉ x)
+    (h : addMany [s] [c] dupOk (items.map fun it => (it.render c, it.attrs)) t fresh = .ok (t', fr')) :
+    addMany [s] [c] true (items.map fun it => (it.render c, it.attrs)) t fresh = .ok (t', fr') ∧
+    SibUnique t' ∧ (closure (paths t) (items.map (·.branch))).Nodup ∧
+    (∀ q, q ∈ paths t' ↔ q ∈ closure (paths t) (items.map (·.branch))) ∧
+    (∀ b n, nodeAt b t' = some n →
+      (kidPaths (namesAlong b t') n).Sublist (closure (paths t) (items.map (·.branch)))) ∧
+    t'.name = t.name ∧ (∀ it ∈ items, it.branch.head? = some t.name) ∧
+    (dupOk = false → (names t).Nodup → (names t').Nodup) := by
+  have hdup : addMany [s] [c] true (items.map fun it => (it.render c, it.attrs)) t fresh = .ok (t', fr') ∧
+      (dupOk = false → (names t).Nodup → (names t').Nodup) := by
+    cases dupOk with
+    | true => exact ⟨h, fun e => by cases e⟩
+    | false =>
+      obtain ⟨hf, hb⟩ := hno rfl
+      obtain ⟨i1, i2⟩ := addMany_nodup s c items t fresh (t', fr')
+        (fun x hx => ⟨hwf x hx, hb x hx⟩) hs hf h
+      exact ⟨i1, fun _ => i2⟩
+  obtain ⟨u1, u2, u3, u4, u5, u6⟩ := addMany_fold [s] c items t fresh (paths t) t' fr' hwf hs
+    (nodup_paths t hs) (fun _ => Iff.rfl) (fun b n hn => kidPaths_sublist_paths b t n hn) hdup.1
+  exact ⟨hdup.1, u1, u2, u3, u4, u5, u6, hdup.2⟩
+
+end Paths
+
+namespace Paths
+open Str Rel
+
+/-- the constructors: the fold started from a one-node tree -/
+theorem fromLeaf_spec (s c : Char) (dupOk : Bool) (items : List Item) (root : Str) (ra : Attrs) (fresh : Nat)
+    (t' : Tree) (fr' : Nat) (hne : items ≠ []) (hwf : ∀ it ∈ items, it.Wf c)
+    (hno : dupOk = false → s ∉ root ∧ ∀ it ∈ items, ∀ x ∈ it.branch, s ∉ x)
+    (h : addMany [s] [c] dupOk (items.map fun it => (it.render c, it.attrs)) (.node 0 root ra []) fresh
+          = .ok (t', fr')) :
+    SibUnique t' ∧ (firstSeen (items.map (·.branch))).Nodup ∧
+    (∀ q, q ∈ paths t' ↔ q ∈ firstSeen (items.map (·.branch))) ∧
+    (∀ b n, nodeAt b t' = some n → (kidPaths (namesAlong b t') n).Sublist (firstSeen (items.map (·.branch)))) ∧
+    t'.name = root ∧ (dupOk = false → (names t').Nodup) := by
+  have hs0 : SibUnique (.node 0 root ra []) := by simp [SibUnique, SibUniqueL]
+  have hp0 : paths (.node 0 root ra []) = [[root]] := by simp [paths, pathsL]
+  obtain ⟨_, u1, u2, u3, u4, u5, u6, u7⟩ := addMany_spec s c dupOk items (.node 0 root ra []) fresh t' fr' hwf hs0
+    (fun e => by
+      obtain ⟨h1, h2⟩ := hno e
+      refine ⟨?_, h2⟩
+      intro q hq x hx
+      rw [hp0] at hq
+      simp at hq; subst hq
+      simp at hx; subst hx
+      exact h1) h
+  have hcl : closure (paths (.node 0 root ra [])) (items.map (·.branch)) = firstSeen (items.map (·.branch)) := by
+    rw [hp0]
+    apply closure_root root _ (by simpa using hne)
+    intro b hb
+    rw [List.mem_map] at hb
+    obtain ⟨x, hx, rfl⟩ := hb
+    exact u6 x hx
+  rw [hcl] at u2 u3 u4
+  exact ⟨u1, u2, u3, u4, u5, fun e => u7 e (by simp [names, namesL])⟩
+
+/-- `dict_to_tree` on well-formed keys -/
+theorem dictToTree_spec (c : Char) (dupOk : Bool) (items : List Item) (hwf : ∀ it ∈ items, it.Wf c) (t : Tree)
+    (h : dictToTree [c] dupOk (items.map fun it => (it.render c, it.attrs)) = .ok t) :
+    SibUnique t ∧ (firstSeen (items.map (·.branch))).Nodup ∧
+    (∀ q, q ∈ paths t ↔ q ∈ firstSeen (items.map (·.branch))) ∧
+    (∀ b n, nodeAt b t = some n → (kidPaths (namesAlong b t) n).Sublist (firstSeen (items.map (·.branch)))) ∧
+    (dupOk = false → (names t).Nodup) := by
+  unfold dictToTree at h
+  cases items with
+  | nil => simp at h
+  | cons it0 items =>
+    simp only [List.map_cons] at h
+    have hw0 := hwf it0 (by simp)
+    have hsp : split [c] (strip [c] (it0.render c)) = it0.branch :=
+      split_strip_join c it0.lead it0.trail it0.branch hw0.1 hw0.2.1 hw0.2.2.1 hw0.2.2.2
+    rw [hsp] at h
+    obtain ⟨root, rest0, hb0⟩ : ∃ root rest0, it0.branch = root :: rest0 := by
+      cases hb : it0.branch with
+      | nil => exact absurd hb hw0.1
+      | cons a r => exact ⟨a, r, rfl⟩
+    have hroot : root ≠ [] ∧ c ∉ root := hw0.2.2.2 root (by rw [hb0]; simp)
+    simp only [hb0, List.headD_cons, hroot.1, if_false] at h
+    generalize hra : dropName (orElse (dictGet _ root) _) = ra at h
+    let items' : List Item := (it0 :: items).map fun it => { it with attrs := dropName it.attrs }
+    have hmap : ((it0.render c, dropName it0.attrs) :: (items.map fun it => (it.render c, it.attrs)).map
+          fun e => (e.1, dropName e.2)) = items'.map fun it => (it.render c, it.attrs) := by
+      simp [items', List.map_map, Function.comp_def, Item.render]
+    rw [hmap] at h
+    cases hm : addMany [c] [c] dupOk (items'.map fun it => (it.render c, it.attrs)) (.node 0 root ra []) 1 with
+    | error e => rw [hm] at h; cases h
+    | ok r =>
+      obtain ⟨t', fr'⟩ := r
+      rw [hm] at h
+      simp only [Except.ok.injEq] at h
+      subst h
+      have hwf' : ∀ it ∈ items', it.Wf c := by
+        intro it hit
+        simp only [items', List.mem_map] at hit
+        obtain ⟨x, hx, rfl⟩ := hit
+        exact hwf x hx
+      have hbr : items'.map (·.branch) = (it0 :: items).map (·.branch) := by
+        simp [items', List.map_map, Function.comp_def]
+      obtain ⟨v1, v2, v3, v4, _, v6⟩ := fromLeaf_spec c c dupOk items' root ra 1 t' fr' (by simp [items']) hwf'
+        (fun _ => ⟨hroot.2, fun it hit x hx => ((hwf' it hit).2.2.2 x hx).2⟩) hm
+      rw [hbr] at v2 v3 v4
+      exact ⟨v1, v2, v3, v4, v6⟩
+
+end Paths
+
+namespace Paths
+open Str Rel
+
+/-- what a successful `rowsToTree` did -/
+theorem rowsToTree_ok (sep : Str) (dupOk : Bool) (rows : List Row) (t : Tree)
+    (h : rowsToTree sep dupOk rows = .ok t) :
+    ∃ (p0 : Str) (a0 : Attrs) (rest : List Row) (ra : Attrs) (fr : Nat),
+      rows.map (fun r => (strip sep r.1, r.2)) = (p0, a0) :: rest ∧ (split sep p0).headD [] ≠ [] ∧
+      addMany "/".toList sep dupOk ((rows.map fun r => (strip sep r.1, r.2)).map fun r => (r.1, filterRow r.2))
+        (.node 0 ((split sep p0).headD []) ra []) 1 = .ok (t, fr) := by
+  unfold rowsToTree at h
+  simp only at h
+  cases hr : rows.map (fun r => (strip sep r.1, r.2)) with
+  | nil => rw [hr] at h; cases h
+  | cons x rest =>
+    obtain ⟨p0, a0⟩ := x
+    rw [hr] at h
+    simp only at h
+    split at h
+    · cases h
+    · split at h
+      · cases h
+      · rename_i hne
+        split at h
+        · cases h
+        · rename_i t' fr heq
+          simp only [Except.ok.injEq] at h
+          subst h
+          exact ⟨p0, a0, rest, _, fr, rfl, hne, heq⟩
+
+/-- `dataframe_to_tree` / `polars_to_tree` on well-formed paths. The loop runs under the default
+    separator `/`, so with duplicates disallowed the names must not contain `/` either. -/
+theorem rowsToTree_spec (c : Char) (dupOk : Bool) (items : List Item) (hwf : ∀ it ∈ items, it.Wf c)
+    (hslash : dupOk = false → ∀ it ∈ items, ∀ x ∈ it.branch, '/' ∉ x) (t : Tree)
+    (h : rowsToTree [c] dupOk (items.map fun it => (it.render c, it.attrs)) = .ok t) :
+    SibUnique t ∧ (firstSeen (items.map (·.branch))).Nodup ∧
+    (∀ q, q ∈ paths t ↔ q ∈ firstSeen (items.map (·.branch))) ∧
+    (∀ b n, nodeAt b t = some n → (kidPaths (namesAlong b t) n).Sublist (firstSeen (items.map (·.branch)))) ∧
+    (dupOk = false → (names t).Nodup) := by
+  obtain ⟨p0, a0, rest, ra, fr, hr, hne, hm⟩ := rowsToTree_ok [c] dupOk _ t h
+  have hstrip : (items.map fun it => (it.render c, it.attrs)).map (fun r => (strip [c] r.1, r.2))
+      = items.map fun it => (join [c] it.branch, it.attrs) := by
+    rw [List.map_map]
+    apply List.map_congr_left
+    intro it hit
+    obtain ⟨w1, w2, w3, w4⟩ := hwf it hit
+    simp only [Function.comp, Item.render]
+    rw [strip_lead_join_trail c it.lead it.trail it.branch w1 w2 w3 w4]
+  rw [hstrip] at hr hm
+  cases items with
+  | nil => simp at hr
+  | cons it0 items =>
+    simp only [List.map_cons, List.cons.injEq, Prod.mk.injEq] at hr
+    obtain ⟨⟨hp0, _⟩, _⟩ := hr
+    have hw0 := hwf it0 (by simp)
+    obtain ⟨root, rest0, hb0⟩ : ∃ root rest0, it0.branch = root :: rest0 := by
+      cases hb : it0.branch with
+      | nil => exact absurd hb hw0.1
+      | cons a r => exact ⟨a, r, rfl⟩
+    have hroot : root ≠ [] ∧ c ∉ root := hw0.2.2.2 root (by rw [hb0]; simp)
+    have hsp : (split [c] p0).headD [] = root := by
+      rw [← hp0, split_single, splitC_join c _ hw0.1 (fun x hx => (hw0.2.2.2 x hx).2), hb0]; rfl
+    rw [hsp] at hm
+    let items' : List Item := (it0 :: items).map fun it =>
+      { lead := [], branch := it.branch, trail := [], attrs := filterRow it.attrs }
+    have hmap : (((it0 :: items).map fun it => (join [c] it.branch, it.attrs)).map fun r => (r.1, filterRow r.2))
+        = items'.map fun it => (it.render c, it.attrs) := by
+      simp [items', List.map_map, Function.comp_def, Item.render]
+    rw [hmap] at hm
+    have hwf' : ∀ it ∈ items', it.Wf c := by
+      intro it hit
+      simp only [items', List.mem_map] at hit
+      obtain ⟨x, hx, rfl⟩ := hit
+      obtain ⟨w1, _, _, w4⟩ := hwf x hx
+      exact ⟨w1, by simp, by simp, w4⟩
+    have hbr : items'.map (·.branch) = (it0 :: items).map (·.branch) := by
+      simp [items', List.map_map, Function.comp_def]
+    obtain ⟨v1, v2, v3, v4, _, v6⟩ := fromLeaf_spec '/' c dupOk items' root ra 1 t fr (by simp [items']) hwf'
+      (fun e => by
+        refine ⟨hslash e it0 (by simp) root (by rw [hb0]; simp), ?_⟩
+        intro it hit x hx
+        simp only [items', List.mem_map] at hit
+        obtain ⟨y, hy, rfl⟩ := hit
+        exact hslash e y hy x hx) hm
+    rw [hbr] at v2 v3 v4
+    exact ⟨v1, v2, v3, v4, v6⟩
+
+end Paths
